@@ -13,6 +13,9 @@
 #ifndef NBUF
 #define NBUF 1
 #endif
+#ifndef REFSTEPS	/* iteration bound of the blocking-predicate walk = bound given to the real walker's loop */
+#define REFSTEPS (LEN + 2)
+#endif
 
 struct in_s {
 	uint8_t msg[LEN ? LEN : 1];
@@ -27,7 +30,7 @@ struct in_s {
  * RFC 1035 4.1.4) touch a byte at or beyond msg_size?  (label length byte, label data, or second pointer byte) */
 static int ref_walk_leaves_msg(const uint8_t *m, size_t msg_size, size_t off) {
 	size_t pos = off, steps;
-	for (steps = 0; steps < 64 * (LEN + 1) + 2; steps++) {
+	for (steps = 0; steps < REFSTEPS; steps++) {
 		if (pos >= msg_size) return (1);
 		uint8_t l = m[pos];
 		if ((l & 0xC0) == 0xC0) {
@@ -48,6 +51,7 @@ static int ref_walk_leaves_msg(const uint8_t *m, size_t msg_size, size_t off) {
 /* Same for the compression-unaware SequenceOfLabelsGetSize(buf, size). */
 static int ref_seq_leaves_buf(const uint8_t *b, size_t size) {
 	size_t pos = 0, steps;
+	if (size == 0) return (0);	/* refused by the code before any read */
 	for (steps = 0; steps < LEN + 2; steps++) {
 		if (pos >= size) return (1);
 		uint8_t l = b[pos];
@@ -101,6 +105,7 @@ void harness(void) {
 	}
 	if (r == ELOOP) V_WITNESS("compression loop detected");
 	if (r == EBADMSG) V_WITNESS("bad message");
+	if (r == EINVAL) V_WITNESS("bad offset");
 #elif T == 3	/* SequenceOfLabelsGetSize on the whole buffer */
 	size_t sz = 0;
 #ifdef KF_DNS_SEQ_END
